@@ -19,7 +19,7 @@ PROPS = {
                 preds=["TerminatorRoles", "Frozen (action property)"]),
     "C05": dict(families=["abbrev", "late-wrapper"], lens={"vals", "called", "as", "err"}, rand=("C05", 6000, 400000),
                 preds=["UniquePrefixEqFull", "ExactWins", "AmbiguousRejectedAll"]),
-    "C06": dict(families=["alias"], lens={"vals", "called", "as", "agree"}, rand=("C06", 6000, 400000),
+    "C06": dict(families=["alias", "setvalue"], lens={"vals", "called", "as", "agree"}, rand=("C06", 6000, 400000),
                 preds=["AliasEqPrimary", "CalledExact", "UntouchedKeepDefault", "FrameOneOption (action property)"]),
     "C07": dict(families=["modes"], lens={"vals", "called", "as", "rest", "err"}, rand=("C07", 6000, 150000),
                 preds=["LongModeIndependent", "RewriteEquiv"]),
@@ -39,7 +39,7 @@ PROPS = {
                 preds=["NotStuck", "VariantDecreases (action property)", "ErrImpliesNilRest"]),
     "C20": dict(families=["order", "complete", "complete-eq", "shadow"], lens={"nondet", "err", "derr", "comps", "warn", "aliased"}, rand=[("C20", 4000, 300000), ("C20c", 2000, 200000)],
                 repeat=6, twice=True, preds=["FixedRule"]),
-    "C09": dict(families=["term", "conserve", "inherit", "deep-ro"], lens={"rest", "vals", "called"}, rand=("C09", 6000, 150000),
+    "C09": dict(families=["term", "conserve", "inherit", "deep-ro", "conserve-n"], lens={"rest", "vals", "called"}, rand=("C09", 6000, 150000),
                 preds=["StopRoles", "PrefixAsUnordered", "NoStopAsUnordered", "Frozen (action property)"]),
 }
 
